@@ -4,9 +4,9 @@ from . import core, sem, gen, oracle, build, run, recx, ansic
 from .gram import G, hx, emit_define, emit_tokens, emit_config
 
 LEVELS = [0, 1, 2, -7, 9]
-EXPR = G("E : T # 0 | E '+' T # plus (0 1 2) ; T : F # 0 | T '*' F # mult (0 1 2) ; F : a # fa (0) | '(' E ')' # par (0 1 2)")
-STMT = G("P : P S # seq (0 1) | S # one (0) ; S : x ';' # xs (0 1) | '{' P '}' # blk (0 1 2) | i c S # if (0 1 2) | i c S e S # ife (0 1 2 3 4) | '{' '}' # empty (0 1)")
-BRACK = G("S : S '(' S ')' # n (0 1 2 3) | # e")
+EXPR = G("E : T # 0 | E '+' T # plus (0 1 2) ; T : F # 0 | T '*' F # mult (0 1 2) ; F : a # fa (0) | '(' E ')' # par (0 1 2) | '(' error ')' # bad")
+STMT = G("P : P S # seq (0 1) | S # one (0) ; S : x ';' # xs (0 1) | '{' P '}' # blk (0 1 2) | i c S # if (0 1 2) | i c S e S # ife (0 1 2 3 4) | '{' '}' # empty (0 1) | error ';' # bad")
+BRACK = G("S : S '(' S ')' # n (0 1 2 3) | # e | S '(' error ')' # bad (0)")
 LONG = {"expr": EXPR, "stmt": STMT, "brackets": BRACK}
 
 
@@ -152,12 +152,19 @@ def _long_worker(args):
     if family in LONG:
         g = LONG[family]
         w = GENS[family](rng, n)
-        if rng.random() < 0.5 and len(w) > 10:
+        mode = idx % 3
+        if mode == 1 and len(w) > 10:
             # 1-6 corrupted tokens: same error reports and recoveries on every level, and the goto cache
             # keeps entries recorded before a recovery rewrote the parser list
             for _ in range(rng.choice([1, 1, 2, 3, 6])):
                 i = rng.randrange(len(w))
                 w[i] = rng.choice(g.term_names())
+        elif mode == 2 and len(w) > 100:
+            # a burst of 2-6 garbage tokens near the start: the recovery ignores several tokens, so parser-list
+            # indices and token numbers differ for the whole repetitive rest of the input
+            i = rng.randrange(2, max(3, len(w) // 20))
+            for j in range(i, i + rng.randrange(2, 7)):
+                w[j] = rng.choice(g.term_names())
         code = g.code_of()
         toks = [code[t] for t in w]
         for k, la in enumerate((0, 1, 2)):
@@ -226,7 +233,8 @@ def check(tier):
                       "-1,1..6 at lookahead 1); observations (rc, callbacks, ambiguity flag, denoted tree set with "
                       "costs) must equal those of level 2 (debug: of debug 0). (ii) long inputs (2k-12k tokens quick, "
                       "up to 50k thorough) over expression, statement and bracket grammars with random nesting and "
-                      "repeated fragments, sometimes one corrupted token, levels 0/1/2 compared by tree hash. (iii) "
+                      "repeated fragments (the grammars have `error' rules), one third clean, one third with 1-6 corrupted tokens, "
+                      "one third with a burst of 2-6 garbage tokens near the start, levels 0/1/2 compared by tree hash. (iii) "
                       "the ANSI C grammar on test/test.i (75898 tokens) and compare_parsers/test1.i (64853 tokens). "
                       "In all runs hook H2 recomputes the successor set on every goto-cache hit. Non-trivial = "
                       "distinct small cases plus every long workload.")
